@@ -332,8 +332,13 @@ def gen_fault_cases(g, tier):
     for nm in ("obj", "obj_grad", "cons", "cons_jac", "lag_hess", "lag_hess"):
         # (convex_qp: the Hessian certainly has stored entries; nonlinear: the constraint callbacks do)
         base = C.gen_case(g, "convex_qp" if nm in ("lag_hess", "obj", "obj_grad") else "nonlinear", {"iteration_limit": 20}, scaling=False)
-        if nm in ("cons", "cons_jac") and base["spec"]["cl"] == []:
-            continue
+        if nm in ("cons", "cons_jac"):
+            # rows of every kind, an inequality row (a slack, whose start value is computed from c(x0)) among them
+            sp_ = C.convex_qp(g, n=2, m=2, kinds=["lower", "range", "upper"])
+            sp_.A = [[[0.0, 0.0], [0.0, 2.0]], [[0.0, 0.0], [0.0, 0.0]]]
+            base["spec"] = sp_.to_json()
+            base["x0"] = g.point_in_box(sp_.lb, sp_.ub)
+            base["y0"] = [0.0, 0.0]
         base["faults"] = {"eval": {"name": nm, "k": 1}}
         base["variant"] = "start"
         cases.append(base)
